@@ -6,7 +6,7 @@
    (promotions: pieces_[Pawn] vs pieces_[move.piece()]; king-side castling: castle_rooks_from_ vs move.to());
    every move the generators emit satisfies it (MovegenFacts.legal_moves_fields_ok).  Statements only. *)
 From Coq Require Import NArith List Bool.
-From LC Require Import Bits Types BitboardModel MoveModel ZobristModel PositionModel MovegenModel MakeModel MakeFacts MovegenFacts ValidExact.
+From LC Require Import Bits Types BitboardModel MoveModel ZobristModel PositionModel MovegenModel MakeModel MakeFacts MovegenFacts ValidExact CounterWrap.
 Import ListNotations.
 Local Open Scope N_scope.
 
@@ -39,3 +39,15 @@ Print Assumptions C03_history_undo_exact. Print Assumptions C03_history_undonull
 
 Print Assumptions C03_undo_make. Print Assumptions C03_undonull_makenull. Print Assumptions C03_balanced_histories.
 Print Assumptions C03_generated_moves_ok. Print Assumptions C03_undo_generated.
+
+(* the full-move number is a std::size_t in the C++ (wrapping) and an unbounded N in the model: the C++ counter is the
+   model's counter mod 2^64 (that is what the correspondence compares), makemove's step is simulated by the machine's
+   wrapping increment, and the machine's increment / decrement pair is exact at EVERY 64-bit value, 2^64-1 included
+   (CounterWrap.v; a guard against the wrap on one side only breaks it: saturating_make_breaks_undo) *)
+Theorem C03_fullmove_machine_step : forall K p m, wrap64 (fullmove (makemove K p m)) = mach_inc (wrap64 (fullmove p)) (black_moves p).
+Proof. exact makemove_fullmove_wraps. Qed.
+Theorem C03_fullmove_machine_undo_exact : forall K p m, mach_dec (wrap64 (fullmove (makemove K p m))) (black_moves p) = wrap64 (fullmove p).
+Proof. exact undo_make_fullmove_wraps. Qed.
+Theorem C03_machine_counter_pair_exact : forall c b, c < W64 -> b <= 1 -> mach_dec (mach_inc c b) b = c.
+Proof. exact mach_dec_inc. Qed.
+Print Assumptions C03_fullmove_machine_step. Print Assumptions C03_fullmove_machine_undo_exact. Print Assumptions C03_machine_counter_pair_exact.
